@@ -229,6 +229,21 @@ let handle fields impl : string option * string list =
         [Printf.sprintf "accepted-key-in-flight a version-1 OFFER accepted a key that a version-%s transfer from another peer is still bringing in" va]
       else [] in
     (Some m, mons)
+  | ["inflightrl"; va; k] ->
+    let kk = b (Util.bytes_of_hex k) in
+    let first = if va = "0" then EvOfferV0 [kk] else EvOffer [kk] in
+    let st = rx_run false [first; EvGoroutineRuns (nat_ 0); EvOfferNoSlot [kk]; EvOffer [kk]] in
+    let m = match st.rx_accepted with
+      | [a3; a2; a1] ->
+        Printf.sprintf "ok o1=%s o2=%s o3=%s d1=1" (if a1 <> [] then "A" else "D") (if a2 <> [] then "A" else "D") (if a3 <> [] then "A" else "P")
+      | _ -> "panic" in
+    let mons =
+      if not (starts impl "ok") then ["inflightrl-case-failed " ^ impl]
+      else
+        (if field impl "o1" = "A" && field impl "o2" = "A" then ["accepted-without-permit-v0 a version-0 OFFER was accepted although no inbound slot was free"] else []) @
+        (if field impl "o1" = "A" && field impl "o3" = "A" then
+           ["accepted-key-in-flight a version-1 OFFER accepted a key of a still running transfer after a rate-limited OFFER of that key"] else []) in
+    (Some m, mons)
   | ["inflight3"; k; l] ->
     let kk = b (Util.bytes_of_hex k) and ll = b (Util.bytes_of_hex l) in
     let st = rx_run false [EvOffer [kk]; EvGoroutineRuns (nat_ 0); EvOffer [kk; ll]; EvGoroutineRuns (nat_ 1);
